@@ -267,9 +267,12 @@ class Runner:
     def __enter__(self):
         return self
 
-    def __exit__(self, *exc):
+    def __exit__(self, etype, *exc):
         if self.pool is not None:
-            self.pool.terminate()
+            if etype is None:
+                self.pool.close()  # workers finish (and remove their temp dirs) before exiting
+            else:
+                self.pool.terminate()
             self.pool.join()
 
     def run(self, dom, worker, chunks):
@@ -447,14 +450,14 @@ def run(ctx):
             for pos in POSITIONS:
                 f = with_pos(opt, pos)
                 for exe in ("cmd", ["cmd", "sub"]):
-                    work.append((exe, [f], all_assignments([f], appends=((), ("X", "Y"))), len(work) % 3 == 0))
+                    work.append((exe, [f], all_assignments([f], appends=((), ("X", "Y"))), len(work) % 5 == 0))
         R.run(domA, _worker, chunked(work, 60))
 
         # --- B: two fields, full cross (thorough) / sampled (quick)
         optsA, optsB = field_options("a"), field_options("b")
         pos2 = list(position_assignments(2))
         total2 = len(optsA) * len(optsB) * len(pos2)
-        nB = ctx.pick(2500, total2)
+        nB = ctx.pick(1500, total2)
         domB = ctx.domain(
             "two-fields",
             bound=f"2 fields, each from the full one-field option set ({len(optsA)} options) x {len(pos2)} distinct-position pairs = {total2} definitions"
@@ -518,7 +521,7 @@ def run(ctx):
         R.run(domC, _worker_order, chunked(work, 100))
 
         # --- D: random mixes of 3-4 fields with all features
-        nD = ctx.pick(800, 20000)
+        nD = ctx.pick(500, 20000)
         domD = ctx.domain(
             "random-3-4-fields",
             bound=f"{nD} random definitions (seed {ctx.seed}) of 3-4 fields from the full option set with distinct positions, executable 'cmd' or ['cmd','sub'], append_args [] or ['X','Y']; up to 12 random value assignments each",
@@ -538,6 +541,53 @@ def run(ctx):
                 allv = rnd.sample(allv, 12)
             work.append((exe, fields, allv, i % job_stride == 0))
         R.run(domD, _worker, chunked(work, 100))
+    helpers_domain(ctx)
+
+
+def helpers_domain(ctx):
+    """direct contracts on the two ordering helpers (pure functions; candidates for engine D)"""
+    from types import SimpleNamespace
+
+    from pydra.compose.shell.builder import remaining_positions
+    from pydra.utils.general import position_sort
+
+    pool = [None, 0, 1, 2, 5, -1, -2, -3]
+    dom = ctx.domain(
+        "ordering-helpers",
+        bound="position_sort: every list of <= 4 (position, label) entries with positions from {None,0,1,2,5,-1,-2,-3}, explicit positions distinct; "
+        "remaining_positions: every list of <= 3 fields with positions from {None,1,2,-1,-2} (duplicates allowed) plus the executable at 0, num_args = n+1",
+        rule="one case per input list; non-trivial = at least two entries",
+        exhaustive=True,
+    )
+    for n in range(0, 5):
+        for ps in itertools.product(pool, repeat=n):
+            given = [p for p in ps if p is not None]
+            if len(given) != len(set(given)):
+                continue
+            args = [(p, f"o{i}") for i, p in enumerate(ps)]
+            got = position_sort(list(args))
+            exp = (
+                [o for p, o in sorted((a for a in args if a[0] is not None and a[0] >= 0), key=lambda a: a[0])]
+                + [o for p, o in args if p is None]
+                + [o for p, o in sorted((a for a in args if a[0] is not None and a[0] < 0), key=lambda a: a[0])]
+            )
+            dom.case(("position_sort", ps), n >= 2, {"position_sort": [list(a) for a in args], "result": got})
+            if got != exp:
+                ctx.fail(None, f"position_sort({args}) = {got}, documented order {exp}", {"helper": "position_sort", "args": [list(a) for a in args], "got": got, "expected": exp}, domain=dom)
+    for n in range(0, 4):
+        for ps in itertools.product(POSITIONS, repeat=n):
+            flds = [SimpleNamespace(name="executable", position=0)] + [SimpleNamespace(name=NAMES[i], position=p) for i, p in enumerate(ps)] + [SimpleNamespace(name="append_args", position=None)]
+            num = n + 1
+            occupied = [0] + [(p if p >= 0 else num + p) for p in ps if p is not None]
+            collide = len(occupied) != len(set(occupied))
+            exp = None if collide else [i for i in range(0, num) if i not in occupied]
+            try:
+                got = remaining_positions(flds)
+            except ValueError:
+                got = None
+            dom.case(("remaining_positions", ps), n >= 2, {"remaining_positions": list(ps), "result": got})
+            if got != exp:
+                ctx.fail(None, f"remaining_positions(positions {ps}) = {got}, expected {exp} (None = ValueError)", {"helper": "remaining_positions", "positions": list(ps), "got": got, "expected": exp}, domain=dom)
 
 
 def _worker_order(chunk):
@@ -551,6 +601,18 @@ def _worker_order(chunk):
 
 def replay(rec):
     case = rec["case"]
+    if "helper" in case:
+        from vf.core import Ctx
+
+        c2 = Ctx("C22", "quick", 0)
+        c2.known = []
+        c2.fail = lambda klass, what, case, **kw: c2.violations.append(what)  # no replay files from a replay
+        helpers_domain(c2)
+        print(f"replay C22: ordering helpers re-run, {len(c2.violations)} failing case(s): {c2.violations[:3]}")
+        if c2.violations:
+            print(f"VIOLATION property=C22 replay={rec.get('_path', '')}")
+            return 1
+        return 0
     fields, exe = case["fields"], case["executable"]
     try:
         cls = build_class(exe, fields)
